@@ -212,7 +212,7 @@ def run(prop, tier):
     obs = set()
     ctx = multiprocessing.get_context("fork")
     try:
-        with ctx.Pool(min(16, os.cpu_count() or 4)) as pool:
+        if True:
             for maxr in maxes:
                 store = os.path.join(store_s.dir, "m%d" % maxr)
                 os.makedirs(store)
@@ -222,7 +222,7 @@ def run(prop, tier):
                 cap = 4 * maxr + 2
                 while frontier and depth < cap:
                     tasks = [(maxr, store, k, h, ri, rh) for (k, h, rh) in frontier for ri in range(len(RUNS))]
-                    results = pool.map(transition, tasks, chunksize=1)
+                    results = common.pmap(transition, tasks)
                     errs = [r["engine_error"] for r in results if "engine_error" in r]
                     if errs:
                         raise common.EngineError("; ".join(errs[:2]))
